@@ -127,6 +127,40 @@ def _roundtrip(path):
     return (path, "ok", len(o.lAllObjects))
 
 
+DECOR = ["\ufeff", "\ufeff\ufeff", "\u200b", "\u00a0", "\t", "\x0c", "-- \ufeff", "\ufffe"]
+
+
+def _roundtrip_decorated(args):
+    """the same through the real reader: a copy of the file whose FIRST line starts with a byte order mark / zero-width space /
+    no-break space / form feed ...: whatever VSG accepts must be emitted exactly as read (rejecting the file is fine)"""
+    path, k = args
+    import tempfile
+
+    from vsg.vhdlFile import utils as vutils
+
+    lines = corpus.read_lines(path)
+    if not lines:
+        return (path, "ok", None)
+    d = tempfile.mkdtemp(prefix="c04d_")
+    try:
+        f = os.path.join(d, "t.vhd")
+        with open(f, "w", encoding="utf-8", newline="") as fh:
+            fh.write(DECOR[k % len(DECOR)] + "\n".join(lines) + "\n")
+        read, err = vutils.read_vhdlfile(f)
+        o = corpus.parse(f, read)
+        if o is None:
+            return (path, "rejected", None)
+        out = o.get_lines()[1:]
+        if out != read:
+            for i, (a, b) in enumerate(zip(out, read)):
+                if a != b:
+                    return (path, "diff", "first line decorated with %r: line %d read %r, emitted %r" % (DECOR[k % len(DECOR)], i + 1, b[:40], a[:40]))
+            return (path, "diff", "first line decorated with %r: line count %d vs %d" % (DECOR[k % len(DECOR)], len(read), len(out)))
+        return (path, "ok", None)
+    finally:
+        shutil.rmtree(d, ignore_errors=True)
+
+
 def _cli(args, cwd):
     p = subprocess.run([os.path.join(os.path.dirname(sys.executable), "vsg")] + args, cwd=cwd, capture_output=True, text=True, timeout=600)
     return p.returncode, p.stdout, p.stderr
@@ -264,6 +298,14 @@ def run():
     for p, st, why in res:
         if st in ("diff", "unclassified"):
             c.findings.append(Finding("bounded", "roundtrip:" + st, "%s: %s" % (os.path.relpath(p, corpus.REPO), why), {"file": p, "observed": why}, os.path.relpath(p, corpus.REPO)))
+            break
+
+    dfiles = corpus.sample(24 if c.tier == "quick" else 400, c.seed + 404)
+    dres = corpus.pmap(_roundtrip_decorated, [(f, i) for i, f in enumerate(dfiles)])
+    c.bounded["roundtrip_decorated_first_line"] = {"evaluations": len(dres), "distinct_nontrivial": len([r for r in dres if r[1] == "ok"]), "rule": "corpus file written with its first line prefixed by a byte order mark, a zero-width / no-break space, a tab, a form feed (8 decorations), read by the real read_vhdlfile, parsed and emitted: emitted lines == lines read, for every file VSG accepts"}
+    for p, st, why in dres:
+        if st == "diff":
+            c.findings.append(Finding("bounded", "roundtrip:diff", "%s: %s" % (os.path.relpath(p, corpus.REPO), why), {"file": p, "observed": why}, os.path.relpath(p, corpus.REPO)))
             break
 
     # bounded (c): no write without need, through the real CLI
